@@ -644,7 +644,8 @@ impl<'a> Sieve<'a> {
             let p = self.fbase.primes[pidx] as u16;
             for idx in 0..rlen {
                 let r = res[idx];
-                if r == off || r == off + p {
+                // off may be OFFSET_NONE: off + p would overflow.
+                if r == off || (r >= p && r - p == off) {
                     facs[idx].push(pidx)
                 }
             }
